@@ -315,6 +315,13 @@ DATA_VALUE_PROBES = [
     '10 DATA ,0.5,.25,1E-5,1E-4,0.0001,12345.678,1E5,99999,100000,1E9,1E10\n20 READ Z,A,B,C,D,E,F,G,H,I,J,K\n'
     '30 A=A*4:B=B*8:C=C*1E5:D=D*1E4:E=E*1E4:G=G/1E5:J=J/1E9:K=K/1E10\n40 PRINT Z;A;B;C;D;E;F;G;H;I;J;K',
     '10 DATA 3E-10,,0.000123456789,&HFF,1E-38,32767,32766\n20 READ A,B,C,D,E,F,G\n30 A=A*1E10:C=C*1E4:E=E*1E38\n40 PRINT A;B;C;D;E;F;G',
+    # several DATA statements, the empty item in the first / a middle / the last one only; READs that cross statement borders
+    '10 DATA 1,,3\n20 DATA 4\n30 READ A,B,C,D\n40 PRINT A;B;C;D',
+    '10 DATA 1,2\n20 DATA ,4\n30 DATA 5,6\n40 READ A,B,C,D,E,F\n50 PRINT A;B;C;D;E;F',
+    '10 DATA 1,2\n20 DATA 3\n30 DATA 4,\n40 READ A,B,C,D,E\n50 PRINT A;B;C;D;E',
+    '10 READ A,B:READ C\n20 DATA ,7:DATA 8\n30 PRINT A;B;C\n40 DATA 9\n50 READ D:PRINT D',
+    '10 DATA ,\n20 DATA 1.5,2.5E1\n30 READ A,B,C,D\n40 PRINT A;B;C;D',
+    '10 DATA "X",,1\n20 DATA 2,"Y"\n30 READ A$,B,C,D,E$\n40 PRINT A$;B;C;D;E$',
 ]
 
 
